@@ -357,6 +357,8 @@ def real_cases(draw, ctx):
     for i in range(2):
         d = draw(_detector(i, n, T, "phasor"))
         d["lo"], d["hi"] = lo, hi
+        if d["window"] is None and resolve_stride(d["stride"], d["periods"]) == 1:
+            d["stride"] = draw(st.sampled_from([2, 3, 4]))  # keep the bulk of the (expensive) real runs non-trivial
         dets.append(d)
     return {"scene": spec, "dets": dets, "lo": lo, "hi": hi, "exact": draw(st.booleans())}
 
